@@ -97,14 +97,27 @@ fn res_image(verbose: bool, f: impl FnOnce() -> image::RgbaImage) -> String {
     }
 }
 
+/// which of `n` entities are observed when there are more than `k`: the first `k/2`, the last
+/// two, and `k - k/2 - 2` positions spread evenly over the middle
 fn sel(n: usize, k: usize) -> Vec<usize> {
     if n <= k {
         (0..n).collect()
     } else {
-        let mut v: Vec<usize> = (0..k - 2).collect();
+        let a = k / 2;
+        let b = k - a - 2;
+        let mut v: Vec<usize> = (0..a).collect();
+        for i in 0..b {
+            v.push(a + ((i + 1) * (n - a - 2)) / (b + 1));
+        }
         v.push(n - 2);
         v.push(n - 1);
-        v
+        let mut out: Vec<usize> = Vec::new();
+        for x in v {
+            if !out.contains(&x) {
+                out.push(x);
+            }
+        }
+        out
     }
 }
 
